@@ -12,16 +12,19 @@
     * `commit_accounting`: Commit changes the supply by exactly the sum of the balance changes it writes
       (no hypothesis: the mint/burn book-keeping itself is exact).
     * `commit_writes_view`: after Commit the bank balance of every account is what the EVM saw.
-    * `evm_tx_conserves`: for every sequence of value transfers, storage / nonce writes, precompile entries
-      (Commit) and *mirrored* precompile bank movements (bank change to the calling contract followed by the same
-      AddBalance / SubBalance), the final Commit leaves the supply unchanged and every bank balance equal to
-      the EVM's view.
-    * `unmirrored_counterexample`: a bank movement on an account the StateDB already holds dirty that is *not*
-      mirrored (what the staking precompile does when the delegator is the transaction origin and the caller is
-      a contract) is overwritten by the final Commit: coins are minted (recorded finding F-C02-a).
+    * `sync_spec`: after `SyncBalances` the EVM sees the bank's balance of every account.
+    * `evm_tx_conserves`: for every sequence of value transfers, storage / nonce writes, precompile queries
+      (Commit) and stateful precompile calls (Commit, a Cosmos message moving coins of *arbitrary* accounts,
+      SyncBalances), the final Commit leaves the supply unchanged and every bank balance equal to the EVM's view.
+    * `precompiles_sync`: regenerated facts — every coin-moving precompile method has that shape.
+    * `unsynced_counterexample` / `synced_same_history`: the defects this property exposed before the repair
+      (delegation of a dirty origin's coins by grant; staking rewards paid out during a delegation; rewards paid
+      to a withdraw address other than the caller): a bank movement under a cached object without the sync is
+      overwritten by the final Commit (coins minted or burned); with the sync it is not.
 -/
 import HaqqModel.Model.StateDB
 import HaqqModel.Props.C05
+import HaqqModel.Generated.Facts
 
 namespace Haqq.SDB
 
@@ -510,6 +513,363 @@ theorem good_setState (db : DB) (N a key v : Nat) (hg : Good db N) (ha : a < N) 
     rw [v2, load_view, v1]
     exact upd_eq_self _ _ _ (by rw [← v1]; exact view_of_get _ a o ho)
 
+/-! ### a second invariant: which objects are cached -/
+
+structure Good2 (db : DB) (N : Nat) : Prop where
+  /-- every cached object is inside the universe -/
+  cb : ∀ a, N ≤ a → db.objs a = none
+  /-- a cached object the journal has not touched was loaded from an existing account -/
+  ce : ∀ a o, db.objs a = some o → db.dirties a = 0 → db.k.exist a = true
+
+theorem g2_new (k : Keeper) (N : Nat) : Good2 (DB.new k) N :=
+  ⟨fun _ _ => rfl, fun a o h _ => by simp [DB.new] at h⟩
+
+theorem g2_setObj (db : DB) (N a : Nat) (e : Entry) (o' : Obj) (h : Good2 db N) (ha : a < N) (he : e.dirtied = some a) :
+    Good2 ((db.push e).setObj a o') N := by
+  refine ⟨?_, ?_⟩
+  · intro b hb
+    have hba : b ≠ a := by omega
+    simp only [DB.setObj, DB.push, upd, hba, if_false]
+    exact h.cb b hb
+  · intro b ob hob hd
+    have hdirt : ((db.push e).setObj a o').dirties = upd db.dirties a (db.dirties a + 1) := by
+      simp [DB.setObj, DB.push, he]
+    rw [hdirt] at hd
+    by_cases hba : b = a
+    · subst hba; simp at hd
+    · rw [upd_other _ _ _ _ hba] at hd
+      simp only [DB.setObj, DB.push, upd, hba, if_false] at hob
+      exact h.ce b ob hob hd
+
+theorem g2_load (db : DB) (N a : Nat) (h : Good2 db N) (ha : a < N) : Good2 (db.load a) N := by
+  obtain ⟨hk, hd⟩ := load_k db a
+  refine ⟨?_, ?_⟩
+  · intro b hb
+    have hba : b ≠ a := by omega
+    unfold DB.load
+    cases ho : db.objs a with
+    | some o => exact h.cb b hb
+    | none =>
+      simp only
+      split
+      · simp only [upd, hba, if_false]; exact h.cb b hb
+      · exact h.cb b hb
+  · intro b ob hob hdb
+    rw [hd] at hdb
+    rw [hk]
+    unfold DB.load at hob
+    cases ho : db.objs a with
+    | some o => simp only [ho] at hob; exact h.ce b ob hob hdb
+    | none =>
+      simp only [ho] at hob
+      by_cases he : db.k.exist a = true
+      · simp only [he, if_true, upd] at hob
+        by_cases hba : b = a
+        · rw [hba]; exact he
+        · simp only [hba, if_false] at hob; exact h.ce b ob hob hdb
+      · simp only [he, Bool.false_eq_true, if_false] at hob; exact h.ce b ob hob hdb
+
+/-- every journalled operation on an address inside the universe keeps `Good2` -/
+theorem g2_mstep (db : DB) (N : Nat) (op : MOp) (h : Good2 db N) (ha : ∀ a, op.addr = some a → a < N) :
+    Good2 (mstep db op) N := by
+  cases op with
+  | create a =>
+    have hl := g2_load db N a h (ha a rfl)
+    simp only [mstep, MOp.addr, mstepCore]
+    split
+    · exact hl
+    · exact g2_setObj _ N a _ _ hl (ha a rfl) rfl
+  | setBal a v =>
+    have hl := g2_load db N a h (ha a rfl)
+    simp only [mstep, MOp.addr, mstepCore]
+    split
+    · exact g2_setObj _ N a _ _ hl (ha a rfl) rfl
+    · exact hl
+  | setNonce a v =>
+    have hl := g2_load db N a h (ha a rfl)
+    simp only [mstep, MOp.addr, mstepCore]
+    split
+    · exact g2_setObj _ N a _ _ hl (ha a rfl) rfl
+    · exact hl
+  | setState a k v =>
+    have hl := g2_load db N a h (ha a rfl)
+    simp only [mstep, MOp.addr, mstepCore]
+    split
+    · split
+      · exact hl
+      · exact g2_setObj _ N a _ _ hl (ha a rfl) rfl
+    · exact hl
+  | setRefund v => exact ⟨h.cb, h.ce⟩
+  | addLog => exact ⟨h.cb, h.ce⟩
+  | suicide a =>
+    have hl := g2_load db N a h (ha a rfl)
+    simp only [mstep, MOp.addr, mstepCore]
+    split
+    · exact g2_setObj _ N a _ _ hl (ha a rfl) rfl
+    · exact hl
+  | accAddr a =>
+    simp only [mstep, MOp.addr, mstepCore]
+    split
+    · exact h
+    · exact ⟨h.cb, h.ce⟩
+  | accSlot a k =>
+    simp only [mstep, MOp.addr, mstepCore]
+    split
+    · exact h
+    · exact ⟨h.cb, h.ce⟩
+
+theorem g2_addBalance (db : DB) (N a x : Nat) (h : Good2 db N) (ha : a < N) : Good2 (addBalance db a x) N := by
+  have h1 : Good2 (ensure db a) N := g2_mstep db N (.create a) h (by intro b hb; simp [MOp.addr] at hb; omega)
+  unfold addBalance
+  simp only
+  split
+  · exact h1
+  · split
+    · exact g2_mstep _ N _ h1 (by intro b hb; simp [MOp.addr] at hb; omega)
+    · exact h1
+
+theorem g2_subBalance (db : DB) (N a x : Nat) (h : Good2 db N) (ha : a < N) : Good2 (subBalance db a x) N := by
+  have h1 : Good2 (ensure db a) N := g2_mstep db N (.create a) h (by intro b hb; simp [MOp.addr] at hb; omega)
+  unfold subBalance
+  simp only
+  split
+  · exact h1
+  · split
+    · exact g2_mstep _ N _ h1 (by intro b hb; simp [MOp.addr] at hb; omega)
+    · exact h1
+
+theorem g2_setNonce (db : DB) (N a v : Nat) (h : Good2 db N) (ha : a < N) : Good2 (setNonce db a v) N := by
+  have h1 : Good2 (ensure db a) N := g2_mstep db N (.create a) h (by intro b hb; simp [MOp.addr] at hb; omega)
+  exact g2_mstep _ N _ h1 (by intro b hb; simp [MOp.addr] at hb; omega)
+
+theorem g2_setState (db : DB) (N a key v : Nat) (h : Good2 db N) (ha : a < N) : Good2 (setState db a key v) N := by
+  have h1 : Good2 (ensure db a) N := g2_mstep db N (.create a) h (by intro b hb; simp [MOp.addr] at hb; omega)
+  exact g2_mstep _ N _ h1 (by intro b hb; simp [MOp.addr] at hb; omega)
+
+theorem g2_commit (db : DB) (keys : List Nat) (N : Nat) (hg : Good db N) (h : Good2 db N) :
+    Good2 (commit db (List.range N) keys) N := by
+  refine ⟨h.cb, ?_⟩
+  intro a o ho hd
+  rw [commit_k, (cfold_bal db keys N hg N a).2]
+  have hd' : db.dirties a = 0 := hd
+  have : ¬ (a < N ∧ 0 < db.dirties a) := by intro ⟨_, y⟩; omega
+  simp only [this, if_false]
+  exact h.ce a o ho hd'
+
+/-- after Commit every cached object belongs to an existing account -/
+theorem commit_cached_exist (db : DB) (keys : List Nat) (N : Nat) (hg : Good db N) (h : Good2 db N) (a : Nat) (o : Obj)
+    (ho : db.objs a = some o) : (commit db (List.range N) keys).k.exist a = true := by
+  rw [commit_k, (cfold_bal db keys N hg N a).2]
+  by_cases hd : 0 < db.dirties a
+  · have ha : a < N := by
+      by_cases hlt : a < N
+      · exact hlt
+      · have := h.cb a (by omega); rw [this] at ho; cases ho
+    simp [ha, hd]
+  · have hd0 : db.dirties a = 0 := by omega
+    have : ¬ (a < N ∧ 0 < db.dirties a) := by intro ⟨_, y⟩; omega
+    simp only [this, if_false]
+    exact h.ce a o ho hd0
+
+/-! ### SyncBalances -/
+
+theorem syncOne_k (db : DB) (a : Nat) : (syncOne db a).k = db.k := by
+  unfold syncOne
+  cases db.objs a with
+  | none => rfl
+  | some o => simp only; split <;> (try split) <;> (try split) <;> rfl
+
+/-- an object is in step with the bank -/
+def Synced (db : DB) (a : Nat) : Prop := ∀ o, db.objs a = some o → o.bal = db.k.bal a
+
+theorem syncOne_objs_other (db : DB) (a b : Nat) (h : b ≠ a) :
+    (syncOne db a).objs b = db.objs b ∧ (syncOne db a).dirties b = db.dirties b := by
+  unfold syncOne
+  cases ho : db.objs a with
+  | none => exact ⟨rfl, rfl⟩
+  | some o =>
+    simp only
+    split
+    · exact ⟨rfl, rfl⟩
+    · split
+      · exact ⟨rfl, rfl⟩
+      · split
+        · exact ⟨rfl, rfl⟩
+        · simp [DB.setObj, DB.push, Entry.dirtied, upd, h]
+
+theorem syncOne_self (db : DB) (a : Nat) (o : Obj) (ho : db.objs a = some o) (hs : o.suicided = false)
+    (he : db.k.exist a = true) :
+    (syncOne db a).objs a = some { o with bal := db.k.bal a } ∧
+    (db.dirties a ≤ (syncOne db a).dirties a) := by
+  unfold syncOne
+  simp only [ho, hs, Bool.false_eq_true, if_false, he, Bool.true_eq_false]
+  by_cases hb : o.bal = db.k.bal a
+  · simp only [hb, if_true]
+    refine ⟨?_, Nat.le_refl _⟩
+    rw [ho]; congr 1; cases o; simp_all
+  · simp only [hb, if_false]
+    simp [DB.setObj, DB.push, Entry.dirtied]
+
+/-- what the fold needs to carry -/
+structure SyncInv (db0 db : DB) : Prop where
+  k : db.k = db0.k
+  some_iff : ∀ a, (db.objs a).isSome = (db0.objs a).isSome
+  ns : ∀ a o, db.objs a = some o → o.suicided = false
+  dirt : ∀ a, db0.dirties a ≤ db.dirties a
+  dirt_cached : ∀ a, db0.dirties a < db.dirties a → (db0.objs a).isSome = true
+  view_other : ∀ a o o0, db.objs a = some o → db0.objs a = some o0 → o.bal = o0.bal ∨ o.bal = db0.k.bal a
+
+theorem syncOne_inv (db0 db : DB) (a : Nat) (h : SyncInv db0 db)
+    (hex : ∀ b o, db0.objs b = some o → db0.k.exist b = true) :
+    SyncInv db0 (syncOne db a) ∧ Synced (syncOne db a) a := by
+  have hk := syncOne_k db a
+  cases ho : db.objs a with
+  | none =>
+    have e : syncOne db a = db := by unfold syncOne; rw [ho]
+    rw [e]
+    exact ⟨h, by intro o h2; rw [ho] at h2; cases h2⟩
+  | some o =>
+    have hs := h.ns a o ho
+    have hsome0 : (db0.objs a).isSome = true := by rw [← h.some_iff a, ho]; rfl
+    obtain ⟨o0, ho0⟩ := Option.isSome_iff_exists.mp hsome0
+    have he : db.k.exist a = true := by rw [h.k]; exact hex a o0 ho0
+    obtain ⟨hself, hdirt⟩ := syncOne_self db a o ho hs he
+    refine ⟨⟨hk.trans h.k, ?_, ?_, ?_, ?_, ?_⟩, ?_⟩
+    · intro b
+      by_cases hb : b = a
+      · subst hb; rw [hself, ← h.some_iff b, ho]; rfl
+      · rw [(syncOne_objs_other db a b hb).1]; exact h.some_iff b
+    · intro b ob hob
+      by_cases hb : b = a
+      · subst hb; rw [hself] at hob; injection hob with hob; rw [← hob]; exact hs
+      · rw [(syncOne_objs_other db a b hb).1] at hob; exact h.ns b ob hob
+    · intro b
+      by_cases hb : b = a
+      · subst hb; exact Nat.le_trans (h.dirt b) hdirt
+      · rw [(syncOne_objs_other db a b hb).2]; exact h.dirt b
+    · intro b hlt
+      by_cases hb : b = a
+      · subst hb; exact hsome0
+      · rw [(syncOne_objs_other db a b hb).2] at hlt; exact h.dirt_cached b hlt
+    · intro b ob ob0 hob hob0
+      by_cases hb : b = a
+      · subst hb
+        rw [hself] at hob; injection hob with hob
+        right; rw [← hob, h.k]
+      · rw [(syncOne_objs_other db a b hb).1] at hob
+        exact h.view_other b ob ob0 hob hob0
+    · intro o2 ho2
+      rw [hself] at ho2; injection ho2 with ho2
+      rw [← ho2, hk]
+
+theorem syncOne_keeps_synced (db : DB) (a b : Nat) (h : Synced db b) (hne : b ≠ a) : Synced (syncOne db a) b := by
+  intro o ho
+  rw [(syncOne_objs_other db a b hne).1] at ho
+  rw [syncOne_k]
+  exact h o ho
+
+theorem sync_fold (db0 : DB) (hex : ∀ b o, db0.objs b = some o → db0.k.exist b = true) (l : List Nat) :
+    ∀ db, SyncInv db0 db → (∀ a, a ∈ l ∨ Synced db a → True) →
+      SyncInv db0 (l.foldl syncOne db) ∧ (∀ a, (a ∈ l ∨ Synced db a) → Synced (l.foldl syncOne db) a) := by
+  induction l with
+  | nil =>
+    intro db h _
+    refine ⟨h, ?_⟩
+    intro a ha
+    rcases ha with h1 | h2
+    · cases h1
+    · exact h2
+  | cons x xs ih =>
+    intro db h _
+    obtain ⟨h1, hsx⟩ := syncOne_inv db0 db x h hex
+    obtain ⟨h2, hs2⟩ := ih (syncOne db x) h1 (fun _ _ => trivial)
+    refine ⟨h2, ?_⟩
+    intro a ha
+    apply hs2 a
+    rcases ha with hm | hsy
+    · rcases List.mem_cons.mp hm with hax | hin
+      · right; rw [hax]; exact hsx
+      · left; exact hin
+    · right
+      by_cases hax : a = x
+      · rw [hax]; exact hsx
+      · exact syncOne_keeps_synced db x a hsy hax
+
+theorem syncInv_refl (db : DB) (hns : ∀ a o, db.objs a = some o → o.suicided = false) : SyncInv db db :=
+  ⟨rfl, fun _ => rfl, hns, fun _ => Nat.le_refl _, fun a h => absurd h (Nat.lt_irrefl _),
+   fun a o o0 h1 h2 => by rw [h1] at h2; injection h2 with h2; left; rw [h2]⟩
+
+/-- **after SyncBalances the EVM sees the bank's balance of every account**, and the invariants hold again -/
+theorem sync_spec (db : DB) (N : Nat) (hwf : ∀ a, db.k.exist a = false → db.k.bal a = 0)
+    (hdc : ∀ a, 0 < db.dirties a → db.objs a ≠ none) (hns : ∀ a o, db.objs a = some o → o.suicided = false)
+    (hbd : ∀ a, N ≤ a → db.dirties a = 0) (hcb : ∀ a, N ≤ a → db.objs a = none)
+    (hex : ∀ b o, db.objs b = some o → db.k.exist b = true) :
+    (syncBalances db (List.range N)).k = db.k ∧
+    (∀ a, view (syncBalances db (List.range N)) a = db.k.bal a) ∧
+    Good (syncBalances db (List.range N)) N ∧ Good2 (syncBalances db (List.range N)) N := by
+  obtain ⟨hi, hsy⟩ := sync_fold db hex (List.range N) db (syncInv_refl db hns) (fun _ _ => trivial)
+  have hk : (syncBalances db (List.range N)).k = db.k := hi.k
+  have hview : ∀ a, view (syncBalances db (List.range N)) a = db.k.bal a := by
+    intro a
+    simp only [view, DB.get]
+    cases ho : (syncBalances db (List.range N)).objs a with
+    | some o =>
+      have hlt : a < N := by
+        by_cases hlt : a < N
+        · exact hlt
+        · have h0 := hcb a (by omega)
+          have := hi.some_iff a
+          rw [show (List.foldl syncOne db (List.range N)) = syncBalances db (List.range N) from rfl, ho, h0] at this
+          cases this
+      have := hsy a (Or.inl (List.mem_range.mpr hlt)) o ho
+      simp only; rw [this]; exact congrFun (congrArg Keeper.bal hk) a
+    | none =>
+      simp only
+      rw [hk]
+      by_cases he : db.k.exist a = true
+      · simp [he]
+      · have he' : db.k.exist a = false := by simpa using he
+        simp [he', hwf a he']
+  have hgood : Good (syncBalances db (List.range N)) N := by
+    refine ⟨?_, ?_, ?_, hi.ns, ?_⟩
+    · intro a ha; rw [hk] at ha ⊢; exact hwf a ha
+    · intro a _; rw [hview a, hk]
+    · intro a ha hnone
+      have hsome := hi.some_iff a
+      rw [show (List.foldl syncOne db (List.range N)) = syncBalances db (List.range N) from rfl, hnone] at hsome
+      by_cases hd0 : 0 < db.dirties a
+      · have := hdc a hd0
+        cases hob : db.objs a with
+        | none => exact this hob
+        | some o => rw [hob] at hsome; cases hsome
+      · have hlt : db.dirties a < (syncBalances db (List.range N)).dirties a := by omega
+        have := hi.dirt_cached a hlt
+        rw [← hsome] at this; cases this
+    · intro a ha
+      have h0 := hbd a ha
+      by_cases hlt : db.dirties a < (syncBalances db (List.range N)).dirties a
+      · have := hi.dirt_cached a hlt
+        rw [hcb a ha] at this; cases this
+      · have := hi.dirt a
+        have : (List.foldl syncOne db (List.range N)).dirties a = (syncBalances db (List.range N)).dirties a := rfl
+        omega
+  refine ⟨hk, hview, hgood, ⟨?_, ?_⟩⟩
+  · intro a ha
+    have hsome := hi.some_iff a
+    rw [hcb a ha] at hsome
+    cases ho : (syncBalances db (List.range N)).objs a with
+    | none => rfl
+    | some o =>
+      rw [show (List.foldl syncOne db (List.range N)) = syncBalances db (List.range N) from rfl, ho] at hsome
+      cases hsome
+  · intro a o ho _
+    rw [hk]
+    have hsome := hi.some_iff a
+    rw [show (List.foldl syncOne db (List.range N)) = syncBalances db (List.range N) from rfl, ho] at hsome
+    cases hob : db.objs a with
+    | none => rw [hob] at hsome; cases hsome
+    | some o0 => exact hex a o0 hob
+
 /-! ### what an Ethereum transaction can do to balances -/
 
 /-- a Cosmos-side credit / debit of `a` against an account outside the universe (staking pools,
@@ -519,13 +879,20 @@ def Keeper.credit (k : Keeper) (a x : Nat) : Keeper :=
 def Keeper.debit (k : Keeper) (a x : Nat) : Keeper :=
   { k with bal := upd k.bal a (k.bal a - x) }
 
+/-- one coin movement of a Cosmos message: (account, credit?, amount); a debit beyond the balance is refused -/
+def Keeper.move (k : Keeper) (N : Nat) (m : Nat × Bool × Nat) : Keeper :=
+  if m.1 < N then
+    (if m.2.1 then k.credit m.1 m.2.2 else if m.2.2 ≤ k.bal m.1 then k.debit m.1 m.2.2 else k)
+  else k
+
 inductive EOp
   | transfer (f t x : Nat)        -- CALL with value (CanTransfer + Transfer)
   | setNonce (a v : Nat)
   | setState (a key v : Nat)
-  | flush                         -- a stateful precompile is entered: Commit
-  | credit (a x : Nat)            -- precompile: Commit, the bank pays x to the calling contract a, AddBalance(a, x)
-  | debit (a x : Nat)             -- precompile: Commit, the bank takes x from the calling contract a, SubBalance(a, x)
+  | flush                         -- Commit alone (e.g. a precompile query)
+  /-- a stateful precompile: Commit on entry, the Cosmos message moves coins of arbitrary accounts (the delegator,
+      the account its rewards are paid to, the caller, anybody), then SyncBalances -/
+  | precompile (moves : List (Nat × Bool × Nat))
 
 def estep (N : Nat) (keys : List Nat) (db : DB) : EOp → DB
   | .transfer f t x =>
@@ -533,21 +900,13 @@ def estep (N : Nat) (keys : List Nat) (db : DB) : EOp → DB
   | .setNonce a v => if a < N then setNonce db a v else db
   | .setState a key v => if a < N then setState db a key v else db
   | .flush => commit db (List.range N) keys
-  | .credit a x =>
-    -- the caller of a precompile is an executing contract: its object is cached
+  | .precompile moves =>
     let db1 := commit db (List.range N) keys
-    if a < N ∧ (db.objs a).isSome ∧ 0 < x then
-      addBalance { db1 with k := db1.k.credit a x } a x
-    else db1
-  | .debit a x =>
-    let db1 := commit db (List.range N) keys
-    if a < N ∧ (db.objs a).isSome ∧ 0 < x ∧ x ≤ db1.k.bal a then
-      subBalance { db1 with k := db1.k.debit a x } a x
-    else db1
+    syncBalances { db1 with k := moves.foldl (fun k m => k.move N m) db1.k } (List.range N)
 
 /-- the conserved quantity: supply + (what the EVM sees) − (what the bank holds) -/
 def Inv (db : DB) (N : Nat) (s0 : Int) : Prop :=
-  Good db N ∧ db.k.supply + (T db N : Int) - (B db N : Int) = s0
+  Good db N ∧ Good2 db N ∧ db.k.supply + (T db N : Int) - (B db N : Int) = s0
 
 theorem sumTo_upd_add (f : Nat → Nat) (a x N : Nat) (h : a < N) :
     sumTo (upd f a (f a + x)) N = sumTo f N + x := by
@@ -560,155 +919,134 @@ theorem sumTo_upd_sub (f : Nat → Nat) (a x N : Nat) (h : a < N) (hx : x ≤ f 
 theorem flush_inv (N : Nat) (keys : List Nat) (s0 : Int) (db : DB) (h : Inv db N s0) :
     Inv (commit db (List.range N) keys) N s0 ∧
     (∀ a, a < N → (commit db (List.range N) keys).k.bal a = view (commit db (List.range N) keys) a) := by
-  obtain ⟨hg, hs⟩ := h
+  obtain ⟨hg, hg2, hs⟩ := h
   have h1 := commit_supply db keys N hg
   have h2 : B (commit db (List.range N) keys) N = T db N :=
     sumTo_congr _ _ N (fun i hi => commit_writes_view db keys N hg i hi)
   have h3 : T (commit db (List.range N) keys) N = T db N := by simp only [T, view_commit db keys N hg]
-  refine ⟨⟨good_commit db keys N hg, ?_⟩, ?_⟩
+  refine ⟨⟨good_commit db keys N hg, g2_commit db keys N hg hg2, ?_⟩, ?_⟩
   · rw [h1, h2, h3]; omega
   · intro a ha
     rw [view_commit db keys N hg]
     exact commit_writes_view db keys N hg a ha
 
-/-- a bank-side change of the cached address `a` only: the EVM's view is unchanged, every other address stays
-    coherent -/
-theorem bank_change_ex (db : DB) (N a : Nat) (k' : Keeper) (hg : Good db N) (o : Obj) (ho : db.objs a = some o)
-    (hbal : ∀ b, b ≠ a → k'.bal b = db.k.bal b) (hex : ∀ b, b ≠ a → k'.exist b = db.k.exist b)
-    (hwf : k'.exist a = false → k'.bal a = 0) :
-    GoodEx { db with k := k' } N a ∧ view { db with k := k' } = view db := by
-  have hview : view { db with k := k' } = view db := by
-    funext b
-    simp only [view, DB.get]
-    cases hob : db.objs b with
-    | some ob => rfl
-    | none =>
-      have hba : b ≠ a := by intro h; subst h; rw [ho] at hob; cases hob
-      simp only [hbal b hba, hex b hba]
-      by_cases he : db.k.exist b = true <;> simp [he]
-  refine ⟨⟨?_, ?_, hg.dc, hg.ns, hg.bd⟩, hview⟩
-  · intro b hb
-    by_cases hba : b = a
-    · subst hba; exact hwf hb
-    · have hb' : db.k.exist b = false := by rw [← hex b hba]; exact hb
-      show k'.bal b = 0
-      rw [hbal b hba]; exact hg.wf b hb'
-  · intro b hba hd
-    rw [hview]
-    show view db b = k'.bal b
-    rw [hbal b hba]; exact hg.coh b hd
+/-- Cosmos-side movements keep the supply, the account-existence facts and "no account, no coins" -/
+theorem moves_facts (N : Nat) (moves : List (Nat × Bool × Nat)) : ∀ (k : Keeper),
+    (moves.foldl (fun k m => k.move N m) k).supply = k.supply ∧
+    (∀ a, k.exist a = true → (moves.foldl (fun k m => k.move N m) k).exist a = true) ∧
+    ((∀ a, k.exist a = false → k.bal a = 0) →
+      ∀ a, (moves.foldl (fun k m => k.move N m) k).exist a = false → (moves.foldl (fun k m => k.move N m) k).bal a = 0) := by
+  induction moves with
+  | nil => intro k; exact ⟨rfl, fun _ h => h, fun h => h⟩
+  | cons m ms ih =>
+    intro k
+    simp only [List.foldl_cons]
+    obtain ⟨i1, i2, i3⟩ := ih (k.move N m)
+    have hs : (k.move N m).supply = k.supply := by
+      unfold Keeper.move; split
+      · split
+        · rfl
+        · split <;> rfl
+      · rfl
+    have he : ∀ a, k.exist a = true → (k.move N m).exist a = true := by
+      intro a ha
+      unfold Keeper.move; split
+      · split
+        · simp only [Keeper.credit, upd]; split <;> simp_all
+        · split
+          · exact ha
+          · exact ha
+      · exact ha
+    have hw : (∀ a, k.exist a = false → k.bal a = 0) → ∀ a, (k.move N m).exist a = false → (k.move N m).bal a = 0 := by
+      intro hwf a ha
+      unfold Keeper.move at ha ⊢
+      split
+      · rename_i hm
+        simp only [hm, if_true] at ha
+        split
+        · rename_i hc
+          simp only [hc, if_true, Keeper.credit, upd] at ha ⊢
+          by_cases hx : a = m.1
+          · simp [hx] at ha
+          · simp only [hx, if_false] at ha ⊢; exact hwf a ha
+        · rename_i hc
+          simp only [hc, Bool.false_eq_true, if_false] at ha
+          split
+          · rename_i hle
+            simp only [hle, if_true, Keeper.debit] at ha
+            simp only [Keeper.debit, upd]
+            by_cases hx : a = m.1
+            · simp only [hx, if_true]; rw [hx] at ha; rw [hwf m.1 ha]; omega
+            · simp only [hx, if_false]; exact hwf a ha
+          · rename_i hle
+            simp only [hle, if_false] at ha
+            exact hwf a ha
+      · rename_i hm
+        simp only [hm, if_false] at ha
+        exact hwf a ha
+    exact ⟨i1.trans hs, fun a ha => i2 a (he a ha), fun hwf => i3 (hw hwf)⟩
 
 theorem estep_inv (N : Nat) (keys : List Nat) (s0 : Int) (db : DB) (op : EOp) (h : Inv db N s0) :
     Inv (estep N keys db op) N s0 := by
   cases op with
   | transfer f t x =>
-    obtain ⟨hg, hs⟩ := h
+    obtain ⟨hg, hg2, hs⟩ := h
     simp only [estep]
     split
     · rename_i hc
       obtain ⟨hf, ht, hx⟩ := hc
       obtain ⟨g1, v1, k1⟩ := good_subBalance db N f x hg hf
       obtain ⟨g2, v2, k2⟩ := good_addBalance (subBalance db f x) N t x g1 ht
-      refine ⟨g2, ?_⟩
+      refine ⟨g2, g2_addBalance _ N t x (g2_subBalance db N f x hg2 hf) ht, ?_⟩
       simp only [T, B, k2, k1, v2, v1] at hs ⊢
       have e1 := sumTo_upd_add (upd (view db) f (view db f - x)) t x N ht
       have e2 := sumTo_upd_sub (view db) f x N hf hx
       omega
-    · exact ⟨hg, hs⟩
+    · exact ⟨hg, hg2, hs⟩
   | setNonce a v =>
-    obtain ⟨hg, hs⟩ := h
+    obtain ⟨hg, hg2, hs⟩ := h
     simp only [estep]
     split
     · rename_i ha
       obtain ⟨g1, v1, k1⟩ := good_setNonce db N a v hg ha
-      exact ⟨g1, by simp only [T, B, v1, k1] at hs ⊢; exact hs⟩
-    · exact ⟨hg, hs⟩
+      exact ⟨g1, g2_setNonce db N a v hg2 ha, by simp only [T, B, v1, k1] at hs ⊢; exact hs⟩
+    · exact ⟨hg, hg2, hs⟩
   | setState a key v =>
-    obtain ⟨hg, hs⟩ := h
+    obtain ⟨hg, hg2, hs⟩ := h
     simp only [estep]
     split
     · rename_i ha
       obtain ⟨g1, v1, k1⟩ := good_setState db N a key v hg ha
-      exact ⟨g1, by simp only [T, B, v1, k1] at hs ⊢; exact hs⟩
-    · exact ⟨hg, hs⟩
+      exact ⟨g1, g2_setState db N a key v hg2 ha, by simp only [T, B, v1, k1] at hs ⊢; exact hs⟩
+    · exact ⟨hg, hg2, hs⟩
   | flush => exact (flush_inv N keys s0 db h).1
-  | credit a x =>
-    obtain ⟨⟨g1, s1⟩, hbv⟩ := flush_inv N keys s0 db h
+  | precompile moves =>
+    have hg0 := h.1
+    have hg20 := h.2.1
+    obtain ⟨⟨g1, g21, s1⟩, hbv⟩ := flush_inv N keys s0 db h
     simp only [estep]
-    split
-    · rename_i hc
-      obtain ⟨ha, hcached, hx⟩ := hc
-      have hobj : (commit db (List.range N) keys).objs = db.objs := rfl
-      cases ho : db.objs a with
-      | none => simp [ho] at hcached
-      | some o =>
-        have ho1 : (commit db (List.range N) keys).objs a = some o := by rw [hobj]; exact ho
-        obtain ⟨gx, vx⟩ := bank_change_ex (commit db (List.range N) keys) N a
-          ((commit db (List.range N) keys).k.credit a x) g1 o ho1
-          (by intro b hb; simp [Keeper.credit, hb]) (by intro b hb; simp [Keeper.credit, hb])
-          (by intro hb; simp [Keeper.credit] at hb)
-        have hget : ({ commit db (List.range N) keys with k := (commit db (List.range N) keys).k.credit a x } : DB).get a = some o := by
-          simp only [DB.get]; rw [ho1]
-        have hens : ensure { commit db (List.range N) keys with k := (commit db (List.range N) keys).k.credit a x } a
-            = { commit db (List.range N) keys with k := (commit db (List.range N) keys).k.credit a x } := by
-          have hl : ({ commit db (List.range N) keys with k := (commit db (List.range N) keys).k.credit a x } : DB).load a
-              = { commit db (List.range N) keys with k := (commit db (List.range N) keys).k.credit a x } := by
-            simp only [DB.load]; rw [ho1]
-          simp only [ensure, mstep, MOp.addr, hl, mstepCore, hget]
-        unfold addBalance
-        have hx0 : x ≠ 0 := by omega
-        simp only [hens, hx0, if_false, hget]
-        obtain ⟨g2, v2, k2⟩ := good_setBal _ N a (o.bal + x) gx ha o hget
-        refine ⟨g2, ?_⟩
-        have hva : view (commit db (List.range N) keys) a = o.bal := by simp [view, DB.get, ho1]
-        simp only [T, B, v2, k2, vx] at s1 ⊢
-        rw [← hva]
-        have e1 := sumTo_upd_add (view (commit db (List.range N) keys)) a x N ha
-        have e2 := sumTo_upd_add (commit db (List.range N) keys).k.bal a x N ha
-        simp only [Keeper.credit]
-        omega
-    · exact ⟨g1, s1⟩
-  | debit a x =>
-    obtain ⟨⟨g1, s1⟩, hbv⟩ := flush_inv N keys s0 db h
-    simp only [estep]
-    split
-    · rename_i hc
-      obtain ⟨ha, hcached, hx, hle⟩ := hc
-      have hobj : (commit db (List.range N) keys).objs = db.objs := rfl
-      cases ho : db.objs a with
-      | none => simp [ho] at hcached
-      | some o =>
-        have ho1 : (commit db (List.range N) keys).objs a = some o := by rw [hobj]; exact ho
-        obtain ⟨gx, vx⟩ := bank_change_ex (commit db (List.range N) keys) N a
-          ((commit db (List.range N) keys).k.debit a x) g1 o ho1
-          (by intro b hb; simp [Keeper.debit, hb]) (by intro b hb; simp [Keeper.debit])
-          (by
-            intro hb
-            have hb' : (commit db (List.range N) keys).k.exist a = false := hb
-            have := g1.wf a hb'
-            simp [Keeper.debit, this])
-        have hget : ({ commit db (List.range N) keys with k := (commit db (List.range N) keys).k.debit a x } : DB).get a = some o := by
-          simp only [DB.get]; rw [ho1]
-        have hens : ensure { commit db (List.range N) keys with k := (commit db (List.range N) keys).k.debit a x } a
-            = { commit db (List.range N) keys with k := (commit db (List.range N) keys).k.debit a x } := by
-          have hl : ({ commit db (List.range N) keys with k := (commit db (List.range N) keys).k.debit a x } : DB).load a
-              = { commit db (List.range N) keys with k := (commit db (List.range N) keys).k.debit a x } := by
-            simp only [DB.load]; rw [ho1]
-          simp only [ensure, mstep, MOp.addr, hl, mstepCore, hget]
-        unfold subBalance
-        have hx0 : x ≠ 0 := by omega
-        simp only [hens, hx0, if_false, hget]
-        obtain ⟨g2, v2, k2⟩ := good_setBal _ N a (o.bal - x) gx ha o hget
-        refine ⟨g2, ?_⟩
-        have hva : view (commit db (List.range N) keys) a = o.bal := by simp [view, DB.get, ho1]
-        have hba := hbv a ha
-        simp only [T, B, v2, k2, vx] at s1 ⊢
-        rw [← hva]
-        have e1 := sumTo_upd_sub (view (commit db (List.range N) keys)) a x N ha (by omega)
-        have e2 := sumTo_upd_sub (commit db (List.range N) keys).k.bal a x N ha hle
-        simp only [Keeper.debit]
-        omega
-    · exact ⟨g1, s1⟩
+    -- after the flush the supply is s0 (the EVM's view and the bank agree)
+    have hTB : B (commit db (List.range N) keys) N = T (commit db (List.range N) keys) N :=
+      sumTo_congr _ _ N (fun i hi => hbv i hi)
+    obtain ⟨ms, me, mw⟩ := moves_facts N moves (commit db (List.range N) keys).k
+    have hobj : ∀ b o, (commit db (List.range N) keys).objs b = some o →
+        (moves.foldl (fun k m => k.move N m) (commit db (List.range N) keys).k).exist b = true := by
+      intro b o hb
+      exact me b (commit_cached_exist db keys N hg0 hg20 b o hb)
+    obtain ⟨hk, hview, gS, g2S⟩ := sync_spec
+      { commit db (List.range N) keys with k := moves.foldl (fun k m => k.move N m) (commit db (List.range N) keys).k } N
+      (mw g1.wf) g1.dc g1.ns g1.bd g21.cb hobj
+    refine ⟨gS, g2S, ?_⟩
+    have hT : T (syncBalances { commit db (List.range N) keys with k := moves.foldl (fun k m => k.move N m) (commit db (List.range N) keys).k } (List.range N)) N
+        = B (syncBalances { commit db (List.range N) keys with k := moves.foldl (fun k m => k.move N m) (commit db (List.range N) keys).k } (List.range N)) N := by
+      apply sumTo_congr
+      intro i _
+      rw [hview i, hk]
+    rw [hT, hk]
+    simp only
+    rw [ms]
+    rw [hTB] at s1
+    omega
 
 theorem run_inv (N : Nat) (keys : List Nat) (s0 : Int) (ops : List EOp) : ∀ (db : DB), Inv db N s0 →
     Inv (ops.foldl (estep N keys) db) N s0 := by
@@ -719,15 +1057,16 @@ theorem run_inv (N : Nat) (keys : List Nat) (s0 : Int) (ops : List EOp) : ∀ (d
 theorem inv_new (k0 : Keeper) (N : Nat) (hwf : ∀ a, k0.exist a = false → k0.bal a = 0) :
     Inv (DB.new k0) N k0.supply := by
   have hg := good_new k0 N hwf
-  refine ⟨hg, ?_⟩
+  refine ⟨hg, g2_new k0 N, ?_⟩
   have : T (DB.new k0) N = B (DB.new k0) N := sumTo_congr _ _ N (fun i _ => hg.coh i rfl)
   rw [this]
   show k0.supply + _ - _ = k0.supply
   omega
 
 /-- **C02**: whatever an Ethereum transaction does — value transfers, storage and nonce writes, precompile
-    entries, mirrored precompile bank movements, in any order and number — the Commit at its end leaves the
-    total supply where it was and makes every bank balance equal to the balance the EVM reported. -/
+    queries, stateful precompile calls whose Cosmos message moves coins of arbitrary accounts, in any order and
+    number — the Commit at its end leaves the total supply where it was and makes every bank balance equal to
+    the balance the EVM reported. -/
 theorem evm_tx_conserves (N : Nat) (keys : List Nat) (k0 : Keeper)
     (hwf : ∀ a, k0.exist a = false → k0.bal a = 0) (ops : List EOp) :
     let db := ops.foldl (estep N keys) (DB.new k0)
@@ -735,7 +1074,7 @@ theorem evm_tx_conserves (N : Nat) (keys : List Nat) (k0 : Keeper)
     k'.supply = k0.supply ∧ ∀ a, a < N → k'.bal a = view db a := by
   intro db k'
   have hi : Inv db N k0.supply := run_inv N keys k0.supply ops _ (inv_new k0 N hwf)
-  obtain ⟨⟨_, s1⟩, hbv⟩ := flush_inv N keys k0.supply db hi
+  obtain ⟨⟨_, _, s1⟩, hbv⟩ := flush_inv N keys k0.supply db hi
   have h2 : B (commit db (List.range N) keys) N = T (commit db (List.range N) keys) N :=
     sumTo_congr _ _ N (fun i hi => hbv i hi)
   refine ⟨?_, ?_⟩
@@ -744,29 +1083,49 @@ theorem evm_tx_conserves (N : Nat) (keys : List Nat) (k0 : Keeper)
   · intro a ha
     exact commit_writes_view db keys N hi.1 a ha
 
+/-! ### the tie to the source: every coin-moving precompile method follows the `precompile` shape -/
+
+/-- regenerated facts: each transaction method of the staking, distribution and ICS-20 precompiles brings the
+    cached balances in step with `StateDB.SyncBalances` (no single-account AddBalance / SubBalance mirror is
+    left), every stateful precompile's `Run` commits on entry, and `SyncBalances` has the modelled shape -/
+theorem precompiles_sync :
+    Facts.precompileBalanceSync.all (fun p => p.2 == "sync") = true ∧ Facts.precompileBalanceSync.length = 9 ∧
+    Facts.precompileRunCommits.all (fun p => p.2 == "yes") = true ∧ Facts.statedbSyncBalancesShape = true := by
+  decide
+
 def kc : Keeper := { exist := fun a => a < 2, bal := fun a => if a = 0 then 2000000 else 0, nonce := fun _ => 0,
                      store := fun _ _ => 0, supply := 0 }
 
 /-- non-vacuity: a concrete transaction meets the hypotheses and moves coins -/
-example : let db := [EOp.transfer 0 1 777, .setState 1 0 5, .debit 1 100, .credit 1 40, .transfer 1 2 17].foldl (estep 4 [0, 1]) (DB.new kc)
+example : let db := [EOp.transfer 0 1 777, .setState 1 0 5, .precompile [(0, false, 100), (1, true, 40), (3, true, 9)], .transfer 1 2 17].foldl (estep 4 [0, 1]) (DB.new kc)
     (commit db (List.range 4) [0, 1]).k.supply = 0 ∧ (commit db (List.range 4) [0, 1]).k.bal 1 = view db 1 :=
   let h := evm_tx_conserves 4 [0, 1] kc (by intro a h; simp [kc] at h ⊢; omega)
-    [EOp.transfer 0 1 777, .setState 1 0 5, .debit 1 100, .credit 1 40, .transfer 1 2 17]
+    [EOp.transfer 0 1 777, .setState 1 0 5, .precompile [(0, false, 100), (1, true, 40), (3, true, 9)], .transfer 1 2 17]
   ⟨h.1, h.2 1 (by omega)⟩
 
-/-- F-C02-a on the model: the origin (0) sends value 777 to contract 1 — its object is dirty from then on —
-    and the contract has the staking precompile delegate 1 000 000 of the *origin's* coins (authorised by a
-    grant).  The precompile commits, the bank moves the coins to the bonded pool, and because the caller is not
-    the delegator nothing is mirrored.  The final Commit writes the origin's stale cached balance back over
-    the bank balance: 1 000 000 coins are minted. -/
-theorem unmirrored_counterexample :
+/-- the defect this property exposed in the code before the repair (fixed: see known_findings.json): the origin
+    (0) sends value 777 to contract 1 — its object is dirty from then on — and a precompile's Cosmos message debits
+    the origin's bank balance by 1 000 000 *without* the StateDB being brought back in step.  The final Commit writes
+    the origin's stale cached balance back over the bank balance: 1 000 000 coins are minted. -/
+theorem unsynced_counterexample :
     let db0 := DB.new kc
     let db1 := addBalance (subBalance db0 0 777) 1 777          -- value transfer of the call
     let db2 := commit db1 [0, 1] []                              -- precompile entry
-    let db3 : DB := { db2 with k := db2.k.debit 0 1000000 }      -- MsgDelegate: bank debits the origin
+    let db3 : DB := { db2 with k := db2.k.debit 0 1000000 }      -- the Cosmos message debits the origin; no SyncBalances
     let db4 := commit db3 [0, 1] []                              -- end of the transaction
     db4.k.supply = 1000000 ∧ db4.k.bal 0 = 1999223 ∧ db3.k.bal 0 = 999223 := by
   simp [DB.new, kc, addBalance, subBalance, ensure, mstep, mstepCore, DB.load, MOp.addr, DB.get, DB.push, DB.setObj, Entry.dirtied, commit,
     commitOne, Keeper.setBalance, Keeper.debit, upd]
+
+/-- … and with SyncBalances after the message the same history conserves the supply -/
+theorem synced_same_history :
+    let db0 := DB.new kc
+    let db1 := addBalance (subBalance db0 0 777) 1 777
+    let db2 := commit db1 [0, 1] []
+    let db3 := syncBalances { db2 with k := db2.k.debit 0 1000000 } [0, 1]
+    let db4 := commit db3 [0, 1] []
+    db4.k.supply = 0 ∧ db4.k.bal 0 = 999223 := by
+  simp [DB.new, kc, addBalance, subBalance, ensure, mstep, mstepCore, DB.load, MOp.addr, DB.get, DB.push, DB.setObj, Entry.dirtied, commit,
+    commitOne, Keeper.setBalance, Keeper.debit, upd, syncBalances, syncOne]
 
 end Haqq.SDB
